@@ -853,6 +853,11 @@ func (m *Monitors) checkLocks(prev *vh.Snapshot, bi *BatchInfo, next *vh.Snapsho
 			n := int64(0)
 			for _, l := range model {
 				if l.ProcessId == h.ProcessId {
+					if cl := m.s.pol.Class; (cl == "fifo" || cl == "dst") && h.Time+l.Ttl < l.ExpiresAt {
+						// the store executes in submission order here, so this heartbeat was submitted after the acquire or
+						// heartbeat that set the present lease and still carries an older time: heartbeating extends a lease
+						m.violate("C09", "model:heartbeat-shortened-lease", fmt.Sprintf("heartbeat of %s with time %d (committed at tick %d) moved the lease of %s back from %d to %d", h.ProcessId, h.Time, t, l, l.ExpiresAt, h.Time+l.Ttl))
+					}
 					l.ExpiresAt = h.Time + l.Ttl
 					n++
 				}
